@@ -2,12 +2,19 @@
    Proved here (for all sets and code points): the CodePointSet algebra of src/codepointset.rs — the
    representation invariant (sorted, disjoint, non-abutting, in range) is preserved and add / add_set /
    inverted / remove / intersect denote union / union / complement / difference / intersection — and
-   the meaning of a bracket (invert flag).  The class *syntax* (parser) is not modelled: that a class
-   expression is translated to these operations as ECMAScript prescribes is checked end to end against
-   the reference semantics (C01 stream, which generates class expressions incl. v-mode strings). *)
+   the meaning of a bracket (invert flag); intersect and remove keep the invariant too (CpsWf.v).
+   The evaluation of a v-mode class *expression* in the parser is modelled (Model/ClassSet.v: ClassSet with
+   union / intersect / subtract of operands, the case folding of operands under i, nested and negated classes,
+   ClassSet::node) and compared with the IR of every generated expression; it is proved to denote the set of code
+   points and strings ECMAScript prescribes (Spec.v vmem / vstrs), with and without i: for expressions without \q
+   strings (c12_class_set_expression_meaning, c12_class_node_meaning) and with them, a string of one code point
+   counting as that code point (c12_class_set_expression_meaning_with_strings).  The translation of the class *text*
+   into that expression, the order in which strings are tried, and legacy brackets are checked end to end against
+   the reference semantics (C01 and class streams). *)
 From RV Require Import Base.
-From RV.Model Require Import CodePointSet Insn.
-From RV.Proofs Require Import CpsProofs.
+From RV.Model Require Import CodePointSet Insn Fold IR ClassSet.
+From RV.Spec Require Import Spec.
+From RV.Proofs Require Import CpsProofs CpsWf ClassSetProofs ClassSetFull.
 
 Definition inb := CpsProofs.inb.
 
@@ -56,3 +63,54 @@ Example c12_example :
   cps_remove [(97, 122)] [(120, 121)] = [(97, 119); (122, 122)] /\
   cps_inverted [(0, 9); (11, 1114111)] = [(10, 10)].
 Proof. repeat split. Qed.
+
+Theorem c12_intersect_wf : forall s r, cps_wf s = true -> cps_wf r = true -> cps_wf (cps_intersect s r) = true.
+Proof. exact intersect_wf. Qed.
+Theorem c12_remove_wf : forall s r, cps_wf s = true -> cps_wf r = true -> cps_wf (cps_remove s r) = true.
+Proof. exact remove_wf. Qed.
+
+(* v-mode class expressions without \q strings (vwf: ranges ordered and inside the code space, escape sets
+   well-formed): the class set the parser model builds has no strings, keeps the invariant, and contains exactly the
+   code points the reference semantics puts into the expression - under i: leaves folded, operators on folded sets,
+   complement within the folded universe (eqclass enumerates the code points with the same simple case folding) *)
+Theorem c12_class_set_expression_meaning : forall (eqclass : N -> list N), eqclass_spec fold eqclass ->
+  forall icase e, vwf e = true -> sfree e = true ->
+  cs_alts (eval icase e) = [] /\ cps_wf (cs_cps (eval icase e)) = true /\
+  forall x, x <= CODE_POINT_MAX -> cps_contains (cs_cps (eval icase e)) x = vmem fold eqclass icase e x.
+Proof.
+  intros eqclass Hec icase e Hwf Hsf. destruct (eval_means eqclass Hec icase e Hwf Hsf) as [[Ha Hw] M]. auto.
+Qed.
+
+(* ... and the IR node the parser emits for it is one bracket with those members *)
+Theorem c12_class_node_meaning : forall (eqclass : N -> list N), eqclass_spec fold eqclass ->
+  forall icase e, vwf e = true -> sfree e = true ->
+  exists cps', class_node icase e = NBracket (mkBracket (top_neg e) cps') /\ cps_wf cps' = true /\
+    forall x, x <= CODE_POINT_MAX -> xorb (top_neg e) (cps_contains cps' x) = vmem fold eqclass icase e x.
+Proof. intros eqclass Hec. exact (class_node_meaning eqclass Hec). Qed.
+
+(* ... with \q strings (vok: characters inside the code space, negation only over string-free contents as the syntax
+   demands): the code points of the class set together with its strings of one code point are the reference members,
+   and its other strings are, as a set, the reference strings (folded under i) *)
+Theorem c12_class_set_expression_meaning_with_strings : forall (eqclass : N -> list N), eqclass_spec fold eqclass ->
+  forall icase e, vok e = true ->
+  cps_wf (cs_cps (eval icase e)) = true /\
+  (forall x, x <= CODE_POINT_MAX ->
+     cps_contains (cs_cps (eval icase e)) x || single_mem (cs_alts (eval icase e)) x = vmem fold eqclass icase e x) /\
+  (forall str, In str (multis (cs_alts (eval icase e))) <-> In str (vstrs fold icase e)).
+Proof.
+  intros eqclass Hec icase e Hok. destruct (eval_means_full eqclass Hec icase e Hok) as ([Hw _] & M & S). auto.
+Qed.
+
+(* Non-vacuity: [\w--[k]] under iv has neither k nor K nor U+212A (the case that failed before the repair of D16) *)
+Example c12_class_example :
+  let e := VSub [VEsc false [(48, 57); (65, 90); (95, 95); (97, 122)]; VUnion [VCh 107]] in
+  vwf e = true /\ sfree e = true /\
+  map (cps_contains (cs_cps (eval true e))) [107; 75; 8490; 106] = [false; false; false; true].
+Proof. vm_compute. repeat split. Qed.
+
+(* Non-vacuity, with strings: [\q{ab|A|c}&&[\q{AB|a}c]] under iv keeps the string ab (folded), a and c *)
+Example c12_class_strings_example :
+  let e := VInter [VStrs [[97; 98]; [65]; [99]]; VUnion [VStrs [[65; 66]; [97]]; VCh 99]] in
+  vok e = true /\
+  cs_alts (eval true e) = [[97; 98]] /\ map (cps_contains (cs_cps (eval true e))) [97; 65; 99; 67; 98] = [true; true; true; true; false].
+Proof. vm_compute. repeat split. Qed.
